@@ -275,6 +275,17 @@ def find_tasks_in_param(param_value: Any, searched_coll_ids: Optional[set[int]] 
     raise TaskError(msg)
 
 
+def get_direct_dependency_instances(task: Task) -> Sequence[Task]:
+    """Return every task instance that is a direct (first-level)
+    dependency of the given task in its attributes, without merging
+    instances that are equal to each other."""
+    return [
+        dependency_task
+        for field in fields(task)
+        for dependency_task in find_tasks_in_param(getattr(task, field.name))
+    ]
+
+
 def get_direct_dependencies(task: Task) -> OrderedSet[Task]:
     """Return an OrderedSet of tasks that are direct (first-level)
     dependencies of the given task in its attributes."""
